@@ -84,9 +84,10 @@ impl WalRecuperator {
         Ok(())
     }
 
-    /// The undo pass runs before the redo pass. A table whose CREATE is itself still in the log
-    /// is not on disk yet, and neither is anything an unfinished transaction did to it:
-    /// there is nothing to take back (and no catalog entry to take it back with).
+    /// Whether the table exists for the recovery transaction right now. The undo pass runs before
+    /// the redo pass: a table whose CREATE is itself still in the log is not on disk yet, and
+    /// neither is anything an unfinished transaction did to it - there is nothing to take back
+    /// (and no catalog entry to take it back with).
     fn table_is_on_disk(&self, table_id: Option<crate::ObjectId>) -> bool {
         let Some(table_id) = table_id else {
             return false;
@@ -132,16 +133,24 @@ impl WalRecuperator {
                     self.redo_drop(drop_operation)?;
                 }
 
+                // (A table that a committed DROP logged earlier has already removed is gone for
+                // good: what other transactions did to it in between no longer matters.)
                 if let Some(delete_operation) = analysis.delete_ops.get(&lsn) {
-                    self.redo_delete(delete_operation)?;
+                    if self.table_is_on_disk(delete_operation.object_id()) {
+                        self.redo_delete(delete_operation)?;
+                    }
                 }
 
                 if let Some(update_operation) = analysis.update_ops.get(&lsn) {
-                    self.redo_update(update_operation)?;
+                    if self.table_is_on_disk(update_operation.object_id()) {
+                        self.redo_update(update_operation)?;
+                    }
                 }
 
                 if let Some(insert_operation) = analysis.insert_ops.get(&lsn) {
-                    self.redo_insert(insert_operation)?;
+                    if self.table_is_on_disk(insert_operation.object_id()) {
+                        self.redo_insert(insert_operation)?;
+                    }
                 }
             }
         }
@@ -293,8 +302,8 @@ impl WalRecuperator {
 
     /// Recovers a DROP operation during undo phase.
     ///
-    /// Deserializes the CreateTableInstr or CreateIndexInstr from the undo
-    /// payload and executes it to restore the dropped table/index.
+    /// Reads the name of the dropped table/index from the undo payload and
+    /// clears the marks the drop left in the catalog.
     fn undo_drop(&mut self, drop_op: &DropOp) -> RuntimeResult<()> {
         let undo_bytes = drop_op.undo();
 
@@ -302,20 +311,24 @@ impl WalRecuperator {
             return Ok(());
         }
 
-        // The undo of DROP is CREATE - restore from the saved instruction
-        // (A DROP no longer destroys the relation: if it is still there, there is nothing to restore.)
-        if let Ok(mut create_table_instr) = CreateTableInstr::from_bytes(undo_bytes) {
-            create_table_instr.if_not_exists = true;
-            let instr = DdlInstruction::CreateTable(create_table_instr);
-            self.ddl_executor.execute_instruction(&instr)?;
+        // A DROP only marks the relation's catalog entries (its pages are released by VACUUM once
+        // the drop is committed): taking it back means clearing those marks, if they reached the disk.
+        let Some(object_id) = drop_op.row_id() else {
             return Ok(());
-        }
+        };
+        let name = if let Ok(create_table_instr) = CreateTableInstr::from_bytes(undo_bytes) {
+            create_table_instr.table_name
+        } else if let Ok(create_index_instr) = CreateIndexInstr::from_bytes(undo_bytes) {
+            create_index_instr.index_name
+        } else {
+            return Ok(());
+        };
 
-        if let Ok(mut create_index_instr) = CreateIndexInstr::from_bytes(undo_bytes) {
-            create_index_instr.if_not_exists = true;
-            let instr = DdlInstruction::CreateIndex(create_index_instr);
-            self.ddl_executor.execute_instruction(&instr)?;
-        }
+        let builder = self.dml_executor.ctx().tree_builder();
+        self.dml_executor
+            .ctx()
+            .catalog()
+            .restore_relation(object_id, &name, &builder)?;
 
         Ok(())
     }
